@@ -14,7 +14,7 @@ import random
 from . import ops as O
 from . import progen
 
-PATTERNS = ['or_backref_list', 'or_backref_binop', 'or_backref_assign', 'opt_backref_tuple', 'probe_tags', 't:Name', 't:Call', 't:Constant', 't:BinOp', 't:If', 't:Assign', 't:Attribute', 'wild', 'backref_binop',
+PATTERNS = ['static_first_binop', 'static_first_list', 'static_first_and', 'or_backref_list', 'or_backref_binop', 'or_backref_assign', 'opt_backref_tuple', 'probe_tags', 't:Name', 't:Call', 't:Constant', 't:BinOp', 't:If', 't:Assign', 't:Attribute', 'wild', 'backref_binop',
             'call_args_star', 'list_first_rest', 'or_name_const', 'and_not', 'name_re', 'assign_backref', 'body_plus',
             'ng_star', 'mtypes', 'nested_tags', 'opt', 'compare_all', 'maybe', 'qn', 'static_tags', 'dict_all']
 
@@ -104,7 +104,9 @@ _MTYPES = [(['FunctionDef', 'AsyncFunctionDef', 'ClassDef'], 'name', ['f', 'A', 
 def gen_pattern_desc(rng, depth=0):
     r = rng.random()
     if depth < 2 and r < 0.55:
-        k = rng.choice(['or', 'and', 'not', 'not', 'tag'])
+        k = rng.choice(['or', 'and', 'not', 'not', 'tag', 'stag'])
+        if k == 'stag':
+            return ['stag', rng.choice(['s', 'k']), rng.choice([1, 'v']), gen_pattern_desc(rng, depth + 1)]
         if k == 'not':
             return ['not', gen_pattern_desc(rng, depth + 1)]
         if k == 'tag':
@@ -136,6 +138,8 @@ def build_desc(d):
         return m.MNOT(build_desc(d[1]))
     if k == 'tag':
         return m.M(**{d[1]: build_desc(d[2])})
+    if k == 'stag':
+        return m.M(build_desc(d[3]), **{d[1]: d[2]})
     if k == 'type':
         return getattr(ast, d[1])
     if k == 'name':
@@ -163,6 +167,12 @@ def build_pattern(name):
     from fst import match as m
     if isinstance(name, list):
         return build_desc(name)
+    if name == 'static_first_binop':  # a static-tags-only pattern is the FIRST tag producer, a capturing sibling follows
+        return m.MBinOp(left=m.M(m.MName, side='left'), right=m.MOR(m.M(rname=m.MName), m.MConstant))
+    if name == 'static_first_list':
+        return _seq(m, [m.M(..., pos='first'), m.MOR(m.M(second=m.MName), m.MConstant), m.MQSTAR(rest=...)])
+    if name == 'static_first_and':
+        return m.MAND(m.M(m.Mexpr, kind='e'), m.MOR(m.M(n=m.MName), m.MCall))
     if name == 'or_backref_list':
         return m.MList(elts=[m.MOR(m.M(first=m.MName), m.MConstant), m.MQSTAR(rest=m.MTAG('first'))])
     if name == 'or_backref_binop':
@@ -298,15 +308,17 @@ class MatchRun:
             programs = [progen.gen_program(rng, cfg, self.stats) for _ in range(rng.choice([1, 2, 2]))]
             n_gen = rng.choice([2, 2, 3, 4])
             parties = []
+            # a small pattern vocabulary per run, so that the same pattern OBJECT is used by several parties
+            vocab = [rng.choice(PATTERNS) if rng.random() < 0.55 else gen_pattern_desc(rng) for _ in range(rng.choice([2, 3, 4, 6]))]
             for i in range(n_gen):
                 parties.append({'kind': 'search', 'tree': rng.randrange(len(programs)),
-                                'pat': rng.choice(PATTERNS) if rng.random() < 0.5 else gen_pattern_desc(rng),
+                                'pat': rng.choice(vocab),
                                 'nested': rng.random() < 0.8, 'on': rng.choice(['enter', 'enter', 'leave']),
                                 'back': rng.random() < 0.2})
             n_match = rng.choice([2, 4, 8])
             for i in range(n_match):
                 parties.append({'kind': 'match', 'tree': rng.randrange(len(programs)),
-                                'pat': rng.choice(PATTERNS) if rng.random() < 0.6 else gen_pattern_desc(rng),
+                                'pat': rng.choice(vocab),
                                 'node': rng.randrange(10 ** 6), 'on_ast': rng.random() < 0.2})
             if rng.random() < 0.6:  # fault run: aborted / re-entrant matches, cancelled searches, leak-sensitive observers
                 for j in range(len(programs)):  # make sure there is something for the fault patterns to bite on
@@ -384,6 +396,18 @@ class MatchRun:
             self.stats['forked_references'] += len(refs)
             # the interleaved execution
             trees = [FST(s, 'exec') for s in programs]
+            pat_objs = {}
+
+            def pat_of(p):
+                """One pattern OBJECT per distinct pattern for the whole interleaved execution (objects are reusable by
+                contract); the 'alone' references always build their own in a pristine child."""
+                key = repr(p['pat'])
+                if key not in pat_objs:
+                    pat_objs[key] = build_pattern(p['pat'])
+                    self.stats['pattern_objects'] += 1
+                else:
+                    self.stats['pattern_object_reuses'] += 1
+                return pat_objs[key]
             live = {}
             got = {i: [] for i, p in enumerate(parties) if p['kind'] == 'search'}
             done = set()
@@ -408,7 +432,7 @@ class MatchRun:
                 try:
                     if p['kind'] == 'search':
                         if i not in live:
-                            live[i] = trees[p['tree']].search(build_pattern(p['pat']), p['nested'], on=p['on'], back=p['back'])
+                            live[i] = trees[p['tree']].search(pat_of(p), p['nested'], on=p['on'], back=p['back'])
                         try:
                             if len(got[i]) == p.get('close_after'):  # fault: the consumer cancels the search here
                                 live[i].close()
@@ -436,7 +460,7 @@ class MatchRun:
                     else:
                         pending_matches.remove(i)
                         tree = trees[p['tree']]
-                        pat = build_pattern(p['pat'])
+                        pat = pat_of(p)
                         n = node_of(tree, p['node'], p['pat'])
                         r = render(tree, pat.match(n.a) if p.get('on_ast') and hasattr(pat, 'match') else n.match(pat))
                         self.stats['match_calls'] += 1
